@@ -26,6 +26,8 @@ C13 extensions (generated only with Gen(ext=True); C14 keeps the statement kinds
     expand with "internal": int | str, or "icoord": [name, [values]] instead; "kw": [[k, v]...] (backend_kwargs); "size": null
     broadcast with "exclude": [names]
     stack / concatenate / flatten with "kw": [[k, v]...] (backend_kwargs), negative "axis"
+    named with "kw": [["keepdims", 0|1]] besides [["axis", n]]; an EMPTY kw calls the method without backend_kwargs (its default)
+    family "repeat": the same operation twice with different backend arguments (axis / backend_kwargs), chained or side by side
     any statement with "reg": name     the operation is called through the registered-action wrapper a.<name>.<method>(...)
     program flag "xr": true            source values are xarray DataArrays (internal dims i0, i1, ... with coordinates): the
                                        xarray backend is dispatched
@@ -231,6 +233,8 @@ def exec_stmt(st, env):
                         batch_size=st["bs"], keep_dim=st["keep"])
     if op == "named":
         kw = dict(st.get("kw") or [])
+        if not kw:      # as a user writes it: a.sum("d") — the DEFAULT backend_kwargs of the method (one object for all calls)
+            return getattr(a, st["name"])(dim=st["dim"], batch_size=st["bs"], keep_dim=st["keep"])
         return getattr(a, st["name"])(dim=st["dim"], batch_size=st["bs"], keep_dim=st["keep"], backend_kwargs=kw)
     bkw = {"backend_kwargs": dict(st["kw"])} if st.get("kw") and op in ("stack", "concatenate", "flatten", "expand") else {}
     if op == "stack":
@@ -824,9 +828,16 @@ def _ref_stmt(st, env, prog):
                 raise RefUndefined("std needs float mode")
             kw = _kw(st)
             kw.pop("axis", None)     # both backends fix the axis themselves when given several arrays
-            if kw:
+            keepdims = kw.pop("keepdims", 0)
+            if kw or keepdims not in (0, 1) or (keepdims and a.idims is not None):
                 raise RefUndefined("backend kwargs")
+            if keepdims and 1 < bs < n:
+                # numpy.<f>(stacked, axis=0, keepdims=True) per batch and again over the batches: the shape depends on the batching
+                raise RefUndefined("backend kwargs: keepdims with batches")
             data = _np(f, a.data, axis=ax)
+            if keepdims:
+                # numpy.<f>(numpy.stack(arrays), axis=0, keepdims=True): the reduced axis stays, of size 1, as the FIRST internal axis
+                data = np.expand_dims(data, a.nnode - 1)
         dims = rest
         if keep:
             data = np.expand_dims(data, ax)
@@ -1193,6 +1204,65 @@ def has_nan(interp, action):
         return False
 
 
+class Snapshot:
+    """What one statement's action IS at one moment: dimension names in order, the labels of every dimension (None = no
+    coordinate), the scalar coordinates, and the VALUE at every coordinate — the real graph evaluated by the given interpreter
+    (a fresh `Interp` evaluates every node anew, from the payloads as they are now) — or the exception evaluating raised.
+    Two snapshots of the same action taken at different moments must be equal: building further statements (or further
+    programs) must not change what an existing action denotes."""
+
+    def __init__(self, action, interp):
+        n = action.nodes
+        self.dims = [str(d) for d in n.dims]
+        self.labels = {d: ([_strict_label(x, d) for x in n.coords[d].data.tolist()] if d in n.coords else None) for d in self.dims}
+        self.sizes = [int(n.sizes[d]) for d in n.dims]
+        self.scalars = sorted((str(k), str(_strict_label(v.data.item(), str(k)) if v.data.shape == () else v.data.tolist()))
+                              for k, v in n.coords.items() if k not in n.dims)
+        self.values = self.inames = self.exc = None
+        try:
+            self.values, self.inames = interp.values(action)
+        except Exception as e:
+            self.exc = e
+
+
+def _same_values(x, y):
+    if x.shape != y.shape:
+        return False
+    if x.dtype == object or y.dtype == object:
+        try:
+            return all((p == q) or (p != p and q != q) for p, q in zip(x.flat, y.flat))
+        except Exception:
+            return False
+    return bool(np.array_equal(x, y, equal_nan=True))
+
+
+def snapshot_diff(then, now):
+    """None, or in which respect the same action differs between two moments (exact comparison: evaluating the same payloads on
+    the same inputs in the same order is deterministic, floats included)"""
+    if then.dims != now.dims or then.sizes != now.sizes:
+        return f"dimensions were {list(zip(then.dims, then.sizes))}, are now {list(zip(now.dims, now.sizes))}"
+    if then.labels != now.labels:
+        d = next(d for d in then.dims if then.labels[d] != now.labels[d])
+        return f"coordinate {d} was {then.labels[d]}, is now {now.labels[d]}"
+    if then.scalars != now.scalars:
+        return f"scalar coordinates were {then.scalars}, are now {now.scalars}"
+    if (then.exc is None) != (now.exc is None):
+        was = "a value" if then.exc is None else f"{type(then.exc).__name__}: {str(then.exc)[:100]}"
+        now_ = "a value" if now.exc is None else f"{type(now.exc).__name__}: {str(now.exc)[:100]}"
+        return f"evaluating the graph gave {was}, now gives {now_}"
+    if then.exc is not None:
+        return None if type(then.exc) is type(now.exc) else f"evaluating raised {type(then.exc).__name__}, now raises {type(now.exc).__name__}"
+    if then.inames != now.inames:
+        return f"the values had internal dimensions {then.inames}, now have {now.inames}"
+    if then.values.shape != now.values.shape:
+        return f"value shape was {then.values.shape}, is now {now.values.shape}"
+    if not _same_values(then.values, now.values):
+        bad = next((idx for idx in np.ndindex(*then.values.shape)
+                    if not _same_values(np.asarray(then.values[idx]), np.asarray(now.values[idx]))), None)
+        return f"value at {bad} was {then.values[bad] if bad is not None else '?'}, is now {now.values[bad] if bad is not None else '?'}"
+    return None
+
+
 def float_scale(prog, k, refs):
     """magnitude of the operands of statement k (1 for exact programs): float tolerances are relative to it"""
     if not prog.get("float"):
@@ -1324,10 +1394,11 @@ class Gen:
         kinds = ["named"] * 6 + ["reduce"] * 2 + ["map"] * 2 + ["stack", "concatenate", "flatten", "select", "select", "iselect",
                  "expand", "expand", "broadcast", "broadcast", "join", "join", "arith", "arith", "arith", "transform", "transform"]
         if self.ext:
-            kinds += ["mapn", "selectn", "selectn", "arithx", "arithx", "arithx", "joinx", "unindexed", "unindexed", "expand", "expand"]
+            kinds += ["mapn", "selectn", "selectn", "arithx", "arithx", "arithx", "joinx", "unindexed", "unindexed", "expand", "expand",
+                      "repeat", "repeat", "repeat", "repeat"]
         kind = rng.choice(kinds)
         bad = rng.random() < 0.08     # deliberately invalid argument
-        if self.ext and kind in ("mapn", "selectn", "arithx", "joinx", "unindexed"):
+        if self.ext and kind in ("mapn", "selectn", "arithx", "joinx", "unindexed", "repeat"):
             return self.op_ext(kind, k, dims, names, sizes, ind, bad)
         if kind in ("named", "reduce", "stack", "concatenate", "flatten", "select", "iselect") and not names:
             kind = "map"
@@ -1604,6 +1675,65 @@ class Gen:
                 return self.push({"op": "arith", "a": x, "fn": rng.choice(["add", "subtract", "multiply", "divide"]), "b": y})
             dim = self.name("j") if rng.random() < 0.6 else [self.name("j"), self.labels_for(2, "str")]
             return self.push({"op": "join", "a": x, "b": y, "dim": dim, "match": rng.random() < 0.4})
+        if kind == "repeat":
+            # the SAME operation twice with DIFFERENT backend arguments (axis / backend_kwargs; the first of them mostly the method's
+            # default), chained or side by side on one receiver: what the first call built must not depend on the second
+            # (seeded change C13_r3m1: every stack node held ONE kwargs dict by reference, the last call's axis won)
+            big = [x for x in names if sizes[x] >= 2]
+            ref = run_ref(self.prog)[k]
+            if not big or ref is None or ind is None:
+                return self.op_map_fallback(k)
+            what = rng.choice(["stack", "stack", "concatenate", "named"])
+            if what == "concatenate" and not ind:
+                what = "stack"
+            d1 = rng.choice(big)
+            others = [x for x in big if x != d1]
+            chain = bool(others) and rng.random() < 0.5
+            d2 = rng.choice(others) if chain else rng.choice(big)
+            xr_ = ref.idims is not None
+
+            def second_on(first):
+                return first if chain else k
+            if what == "stack":
+                a1 = rng.randint(0, ind)
+                nd2 = ind + 1 if chain else ind
+                a2 = rng.choice([x for x in range(nd2 + 1) if x != a1] or [-1])
+                if a2 >= 0 and rng.random() < 0.25:
+                    a2 -= nd2 + 1            # the same position counted from the end
+                st1 = {"op": "stack", "a": k, "dim": d1, "bs": 0, "keep": False, "axis": a1}
+                if xr_:
+                    st1["kw"] = [["dim", self.name("s")]]
+                first = self.push(st1)
+                if isinstance(self.env[first], tuple):
+                    return first
+                st2 = {"op": "stack", "a": second_on(first), "dim": d2, "bs": 0, "keep": rng.random() < 0.15, "axis": a2}
+                if xr_:
+                    st2["kw"] = [["dim", self.name("s")]]
+                return self.push(st2)
+            if what == "concatenate":
+                k1 = rng.randrange(ind)
+                k2 = rng.choice([x for x in range(ind) if x != k1] or [-1])
+
+                def ckw(ax):
+                    if xr_:
+                        return [["dim", ref.idims[ax]]]
+                    return [] if (ax == 0 and rng.random() < 0.7) else [["axis", ax]]
+                first = self.push({"op": "concatenate", "a": k, "dim": d1, "bs": rng.choice([0, 0, 2]), "keep": False, "kw": ckw(k1)})
+                if isinstance(self.env[first], tuple):
+                    return first
+                return self.push({"op": "concatenate", "a": second_on(first), "dim": d2, "bs": rng.choice([0, 0, 2]),
+                                  "keep": rng.random() < 0.15, "kw": ckw(k2)})
+            variants = [[], [], [["axis", 0]], [["axis", 1]]] + ([] if xr_ else [[["keepdims", 1]], [["keepdims", 1]], [["keepdims", 0]],
+                                                                                 [["axis", 1], ["keepdims", 1]]])
+            kw1 = rng.choice(variants)
+            kw2 = rng.choice([v for v in variants if v != kw1])
+            nm = ["sum", "prod", "min", "max", "mean"]
+            first = self.push({"op": "named", "a": k, "name": rng.choice(nm), "dim": d1, "bs": 0 if dict(kw1).get("keepdims") else rng.choice([0, 0, 2]),
+                               "keep": False, "kw": kw1})
+            if isinstance(self.env[first], tuple):
+                return first
+            return self.push({"op": "named", "a": second_on(first), "name": rng.choice(nm), "dim": d2,
+                              "bs": 0 if dict(kw2).get("keepdims") else rng.choice([0, 0, 2]), "keep": rng.random() < 0.15, "kw": kw2})
         if kind == "unindexed":
             # dimensions WITHOUT coordinate (what join on a new name leaves behind), then the operations that treat them
             # specially: batched reductions with a singleton remainder, stack/concatenate of a single element, keep_dim
